@@ -5,6 +5,14 @@ from ..core import CaseResult, Check
 from ..engines import uijson
 
 
+def _lift_guards(program):
+    from ..core import phash
+
+    if isinstance(program, dict) and not program.get("allow_known") and int(phash(program), 16) % 2 == 0:
+        return {**program, "allow_known": True}
+    return program
+
+
 class C15(Check):
     pid = "C15"
     level = "exploration"
@@ -57,7 +65,8 @@ class C15(Check):
         # (one_of would flatten the 13 per-kind pair strategies into the top-level choice: draw the layer first)
         pairs = uijson.pair_strategy()
         histories = uijson.history_strategy(8)
-        return st.integers(0, 9).flatmap(lambda i: pairs if i < 3 else histories)
+        # (guards of fixed findings: lifted for half of the programs, see c14.py)
+        return st.integers(0, 9).flatmap(lambda i: pairs if i < 3 else histories).map(_lift_guards)
 
     def enumerated(self, tier):
         return uijson.table_rows() + uijson.pair_grid()
